@@ -329,4 +329,22 @@ theorem frameaccumChild_pose (pf pc : V3 ℝ) (qf qc : Q ℝ) (hf : nsq qf = 1) 
 
 example : nsq (⟨3/5, 0, 4/5, 0⟩ : Q ℝ) = 1 := by simp only [nsq]; norm_num
 
+/-! ### further instances of the hypotheses -/
+
+-- `zaxis_minimal_rotation`: the unit direction (3/5, 0, 4/5)
+example : nsq3 (⟨3/5, 0, 4/5⟩ : V3 ℝ) = 1 := by simp only [nsq3]; norm_num
+
+-- `xyaxes_gram_schmidt` / `axisangle_quat`: a normalisable (non-unit) axis
+example : Normalisable (⟨0, 3, 0⟩ : V3 ℝ) := by
+  right
+  have h4 : nsq3 (⟨0, 3, 0⟩ : V3 ℝ) = 3 ^ 2 := by simp only [nsq3]; norm_num
+  rw [h4, Real.sqrt_sq (by norm_num)]
+  refine ⟨?_, ?_⟩
+  · rw [mjEPS_eq]; norm_num
+  · rw [mjEPS_eq]; norm_num
+
+-- `euler_denotes_rotation_product`: the mixed sequence "zYx"
+example : ELetter.ofCode 122 = some ⟨.z, true⟩ ∧ ELetter.ofCode 89 = some ⟨.y, false⟩ ∧ ELetter.ofCode 120 = some ⟨.x, true⟩ := by
+  decide
+
 end MjProof.C36
